@@ -49,7 +49,9 @@ RULE = ("meta-models: seeded generator (mmgen tiny/small/medium, hostile pattern
         "every second model); per valid SDK-written document up to 6 object-level mutants (one "
         "value set to a violating one: string / bytes length min-1 / max+1 keeping the pattern, a "
         "pattern-violating neighbour of the value within the length bounds, list size min-1 / "
-        "max+1; multi-pattern stream: hand-built models where one value carries 3-4 patterns "
+        "max+1; hand-built 'sites' models as in C13 (shared constrained primitive with different "
+        "site-specific tightenings in three definition orders, lists over class hierarchies); "
+        "multi-pattern stream: hand-built models where one value carries 3-4 patterns "
         "(class invariant + 2-4 levels of constrained primitives, declared in topological, "
         "reversed or random order) and length bounds from two levels, expectations from the "
         "construction, one mutant per single pattern / bound) and 3 XML-level mutants (unknown element, two different siblings swapped, a "
@@ -101,6 +103,14 @@ def model_oracle(ctx, models, results) -> Dict[str, Any]:
             continue
         if stage in ("adapter-exception", "harness-exception", "frontend", "sdk-import"):
             raise lib.HarnessError(f"model stream broke at stage {stage}: {str(res)[:1500]}")
+        x = res.get("xsd") or {}
+        if stage == "xsd" and x.get("exception") is not None:
+            ctx.impl_failure(f"xsd-generator-raises-{gx.exception_site(x['exception'])}",
+                             "the XSD generator raises on an accepted meta-model (no schema to "
+                             "enforce anything)", {"model_index": m["index"], "profile": m["profile"],
+                                                   "model_text": m["text"]}, x["exception"], "models",
+                             "harness/gen/xsd.py:gen_models / gen_sites_models (same VERIF_SEED)")
+            continue
         if stage != "done":
             stats["skipped"] += 1     # generation / schema validity is C13's business
             continue
@@ -142,7 +152,7 @@ def chain_oracle(ctx, models, results) -> Dict[str, Any]:
             raise lib.HarnessError(f"multi-pattern stream broke at stage {stage}: {str(res)[:1500]}")
         x = res.get("xsd") or {}
         if stage == "xsd" and x.get("exception") is not None:
-            ctx.impl_failure(f"multi-pattern-xsd-generator-raises-{x['exception']['class']}",
+            ctx.impl_failure(f"multi-pattern-xsd-generator-raises-{gx.exception_site(x['exception'])}",
                              "the XSD generator raises when one value carries several patterns",
                              ident, x["exception"], "multi-pattern", how)
             continue
@@ -202,6 +212,7 @@ def streams(ctx: lib.Ctx) -> None:
 
     models = gx.gen_models(ctx.rng, ctx.n(5, 40), inject_share=0.4)
     cmodels = gx.gen_chain_models(ctx.rng, ctx.n(6, 40))
+    models += gx.gen_sites_models(ctx.rng, ctx.n(3, 9))
     import concurrent.futures
     with concurrent.futures.ThreadPoolExecutor(max_workers=1) as side:
         # both streams are bound by subprocesses (real CLI runs): overlap them
